@@ -89,6 +89,7 @@ type queue struct {
 	metaPageFct     page.Factory    // meta page factory
 	notEmpty        *sync.Cond      // not empty condition
 	rwMutex         *sync.RWMutex
+	putMutex        sync.Mutex   // serializes appends: allocate, copy and publish must happen in the same order
 	dirPath         string       // path for queue file
 	appendedSeq     atomic.Int64 // current written sequence
 	dataPageIndex   int64
@@ -192,6 +193,11 @@ func (q *queue) Put(data []byte) error {
 		// if message size > data page size, return err
 		return ErrExceedingMessageSizeLimit
 	}
+
+	// concurrent appenders must publish in allocation order, otherwise the next message offset
+	// recovered from the last index entry points into live data after reopening.
+	q.putMutex.Lock()
+	defer q.putMutex.Unlock()
 
 	dataPageIndex, dataPage, offset, err := q.alloc(dataLength)
 	if err != nil {
